@@ -3,6 +3,7 @@ import warnings
 
 import numpy as np
 
+from .. import graphforms
 from ..oracles import mgh as OM
 
 ID = "C05"
@@ -271,7 +272,14 @@ def run_case(ctx, k, rng):
         ctx.seen("schedules", sname)
         ctx.seen("mapping_sample_size_order", str(mso.tolist()))
         try:
-            out, cap = call(ctx, A, B, mso if (msoi or rng.random() < 0.5) else None, s)
+            # dense or sparse, any storage: a third of the calls receive the same two graphs in another concrete form
+            if rng.random() < 0.35:
+                fA, nmA = graphforms.random_form(rng, A); fB, nmB = graphforms.random_form(rng, B)
+                ctx.seen("input forms", nmA); ctx.seen("input forms", nmB); ctx.note("calls with another input form")
+            else:
+                fA, fB, nmA, nmB = A, B, "dense-sym", "dense-sym"
+            ctx.set_payload({"A": A, "B": B, "mapping_sample_size_order": mso, "families": [fa, fb], "forms": [nmA, nmB]})
+            out, cap = call(ctx, fA, fB, mso if (msoi or rng.random() < 0.5) else None, s)
         except Exception as e:
             ctx.exception("returns (lower, upper)", e, schedule=sname, n=[len(A), len(B)])
             continue
